@@ -238,6 +238,8 @@ def parse_ids(rest):
 
 def parse_one_str(rest):
     p = rest.strip().split("/")
+    if len(p) < 2 or (p[0] != "NULL" and len(p) < 3):
+        return (None, -1, 0)
     if p[0] == "NULL":
         return (None, int(p[1]), 0)
     return (bytes.fromhex(p[0]) if p[0] != "-" else b"", int(p[1]), int(p[2]))
